@@ -62,11 +62,18 @@ def check(crate, sm, body):
     # EXEMPT is filled only by extend(helper(statement of an unchecked block))
     fills = [s for s in ss if s.args and s.args[0] == exempt and not s.path.endswith(("::contains", "::new"))]
     ok_f = len(fills) == 1 and fills[0].path.endswith("::extend")
+    src = fills[0].args[1] if ok_f else None
+    if len(fills) == 1 and fills[0].path.endswith("::insert") and len(fills[0].args) == 2 and fills[0].args[1][0] == "elem":
+        # the same written element by element: `for loc in helper(statement) { exempt.insert(loc) }`, the loop running to exhaustion, every element inserted
+        import order as O
+        it = fills[0].args[1][1]
+        lps = [lp for lp in O.loops_of_body(body) if (lp.iterable == it or (lp.iterable[0] == "iter" and lp.iterable[1] == it)) and fills[0].bb in lp.blocks]
+        if len(lps) == 1 and not lps[0].exits()[1] and S.block_guard(body, fills[0].bb) == S.block_guard(body, lps[0].head):
+            ok_f, src = True, (it[1] if it[0] == "iter" else it)
     obs.append(Ob("R05.incdec", fn, "the exemption set has a single source", ok_f, found=[s.path for s in fills]))
     if not ok_f:
         return obs
     f = fills[0]
-    src = f.args[1]
     blocks = "search{Block}(Node::SourceUnit(arg1))[*]↓Statement.0"
     stmt = "%s↓Block.statements[*]" % blocks
     ok_src = src[0] == "call" and src[2] and show(src[2][0]) == "Node::Statement(%s)" % stmt
